@@ -59,273 +59,293 @@ func rulesC19(p *Prog, r *Report) {
 	// R19.2 / R19.3 ----------------------------------------------------------------
 	r.Rule("R19.2", "epoch payout only behind available >= epoch amount and TriggeredCount < len(splits)", 2)
 	r.Rule("R19.3", "after a payout the gauge is stored on every path with its remaining balance reduced by what was paid", 2)
-	r.FuncsSeen[fname(init_)] = true
-	var payouts []*ssa.Call
-	for _, c := range calls(init_) {
-		if call, ok := c.(*ssa.Call); ok && p.callIsFn(c, begin) {
-			payouts = append(payouts, call)
+	// every rewards-keeper function that pays an epoch (today InitateGaugesForDuration; a branch
+	// moved into its own method is found the same way)
+	var hosts []*ssa.Function
+	for _, f := range p.Funcs {
+		if moduleOf(f) != "rewards" || p.isAuxFn(f) || f == begin {
+			continue
+		}
+		for _, c := range calls(f) {
+			if p.callIsFn(c, begin) {
+				hosts = append(hosts, f)
+				break
+			}
 		}
 	}
-	sort.Slice(payouts, func(i, j int) bool { return payouts[i].Pos() < payouts[j].Pos() })
-	for i, pc := range payouts {
-		// which branch: the coin argument derived from a split (non swap-fee) or the whole DepositAmount (swap fee)
-		args := callArgs(pc)
-		swapFee := true
-		for _, o := range p.DeepOrigins(args[2]) {
-			if o.Kind == "call" && p.callIs(o.Call, "SplitTotalAmountPerEpoch") {
-				swapFee = false
+	sort.Slice(hosts, func(i, j int) bool { return fname(hosts[i]) < fname(hosts[j]) })
+	if len(hosts) == 0 {
+		hosts = []*ssa.Function{init_}
+	}
+	for _, init_ := range hosts {
+		r.FuncsSeen[fname(init_)] = true
+		var payouts []*ssa.Call
+		for _, c := range calls(init_) {
+			if call, ok := c.(*ssa.Call); ok && p.callIsFn(c, begin) {
+				payouts = append(payouts, call)
 			}
 		}
-		if !swapFee {
-			// available >= amountToDistribute
-			r.Instance("R19.2")
-			isAvail := func(v ssa.Value) bool {
-				return p.fromRecordFieldsLoose(v, map[string]bool{"Gauge": true}, map[string]bool{"DepositAmount": true}) && p.fromRecordFieldsLoose(v, map[string]bool{"Gauge": true}, map[string]bool{"DistributedAmount": true})
+		sort.Slice(payouts, func(i, j int) bool { return payouts[i].Pos() < payouts[j].Pos() })
+		for i, pc := range payouts {
+			// which branch: the coin argument derived from a split (non swap-fee) or the whole DepositAmount (swap fee)
+			args := callArgs(pc)
+			swapFee := true
+			for _, o := range p.DeepOrigins(args[2]) {
+				if o.Kind == "call" && p.callIs(o.Call, "SplitTotalAmountPerEpoch") {
+					swapFee = false
+				}
 			}
-			isAmt := func(v ssa.Value) bool {
+			if !swapFee {
+				// available >= amountToDistribute
+				r.Instance("R19.2")
+				isAvail := func(v ssa.Value) bool {
+					return p.fromRecordFieldsLoose(v, map[string]bool{"Gauge": true}, map[string]bool{"DepositAmount": true}) && p.fromRecordFieldsLoose(v, map[string]bool{"Gauge": true}, map[string]bool{"DistributedAmount": true})
+				}
+				isAmt := func(v ssa.Value) bool {
+					for _, o := range p.DeepOrigins(v) {
+						if o.Kind == "call" && p.callIs(o.Call, "SplitTotalAmountPerEpoch") {
+							return true
+						}
+					}
+					return false
+				}
+				g1 := p.cmpGuard("available >= epoch amount", isAvail, isAmt, RGE)
+				if ok, w := p.GuardedSite(g1, pc); ok {
+					r.OK("R19.2", fmt.Sprintf("%s payout #%d cap", fname(init_), i+1), "only behind available >= epoch amount", p.instrPos(pc))
+				} else {
+					r.Fail("R19.2", fmt.Sprintf("%s payout #%d cap", fname(init_), i+1), "an epoch can be paid without the undistributed remainder of the gauge having been compared with the epoch amount", p.instrPos(pc), w)
+				}
+				r.Instance("R19.2")
+				isLen := func(v ssa.Value) bool {
+					if c, ok := v.(*ssa.Call); ok {
+						if bi, ok := c.Call.Value.(*ssa.Builtin); ok && bi.Name() == "len" {
+							return isAmt(c.Call.Args[0]) || true
+						}
+					}
+					return false
+				}
+				isCount := func(v ssa.Value) bool {
+					return p.fromRecordFieldsLoose(v, map[string]bool{"Gauge": true}, map[string]bool{"TriggeredCount": true})
+				}
+				g2 := p.cmpGuard("TriggeredCount < len(splits)", isCount, isLen, RLT)
+				if ok, w := p.GuardedSite(g2, pc); ok {
+					r.OK("R19.2", fmt.Sprintf("%s payout #%d index", fname(init_), i+1), "split index guarded", p.instrPos(pc))
+				} else {
+					r.Fail("R19.2", fmt.Sprintf("%s payout #%d index", fname(init_), i+1), "the per-epoch split list is indexed by TriggeredCount without TriggeredCount < len(splits)", p.instrPos(pc), w)
+				}
+			}
+			// R19.3: from the success edge of the payout, every path to the next iteration / return passes
+			// a store reducing the remaining balance and then SetGauge
+			r.Instance("R19.3")
+			construct := fmt.Sprintf("%s payout #%d bookkeeping", fname(init_), i+1)
+			var okSucc *ssa.BasicBlock
+			for _, b := range init_.Blocks {
+				ifi, ok := b.Instrs[len(b.Instrs)-1].(*ssa.If)
+				if !ok {
+					continue
+				}
+				e, neq, ok := nilCheck(ifi.Cond)
+				if !ok {
+					continue
+				}
+				for _, cc := range errorCallsOf(e, 0) {
+					if cc == pc {
+						if neq {
+							okSucc = b.Succs[1]
+						} else {
+							okSucc = b.Succs[0]
+						}
+					}
+				}
+			}
+			if okSucc == nil {
+				r.Fail("R19.3", construct, "the error of the payout is not checked", p.instrPos(pc), nil)
+				continue
+			}
+			paidFrom := func(v ssa.Value) bool {
 				for _, o := range p.DeepOrigins(v) {
-					if o.Kind == "call" && p.callIs(o.Call, "SplitTotalAmountPerEpoch") {
+					if o.Kind == "call" && o.Call == pc {
 						return true
 					}
 				}
 				return false
 			}
-			g1 := p.cmpGuard("available >= epoch amount", isAvail, isAmt, RGE)
-			if ok, w := p.GuardedSite(g1, pc); ok {
-				r.OK("R19.2", fmt.Sprintf("%s payout #%d cap", fname(init_), i+1), "only behind available >= epoch amount", p.instrPos(pc))
-			} else {
-				r.Fail("R19.2", fmt.Sprintf("%s payout #%d cap", fname(init_), i+1), "an epoch can be paid without the undistributed remainder of the gauge having been compared with the epoch amount", p.instrPos(pc), w)
-			}
-			r.Instance("R19.2")
-			isLen := func(v ssa.Value) bool {
-				if c, ok := v.(*ssa.Call); ok {
-					if bi, ok := c.Call.Value.(*ssa.Builtin); ok && bi.Name() == "len" {
-						return isAmt(c.Call.Args[0]) || true
+			reduce := map[*ssa.BasicBlock]bool{}
+			setG := map[*ssa.BasicBlock]bool{}
+			for _, b := range init_.Blocks {
+				for _, in := range b.Instrs {
+					if st, ok := in.(*ssa.Store); ok {
+						base, path := addrBase(st.Addr)
+						if namedTypeName(base.Type()) != "Gauge" || len(path) == 0 {
+							continue
+						}
+						op, _, x, isAS := addSubOf(st.Val)
+						if !isAS || !paidFrom(x) {
+							continue
+						}
+						if (path[0] == "DepositAmount" && op == "Sub") || (path[0] == "DistributedAmount" && op == "Add" && !swapFee) {
+							reduce[b] = true
+						}
 					}
-				}
-				return false
-			}
-			isCount := func(v ssa.Value) bool {
-				return p.fromRecordFieldsLoose(v, map[string]bool{"Gauge": true}, map[string]bool{"TriggeredCount": true})
-			}
-			g2 := p.cmpGuard("TriggeredCount < len(splits)", isCount, isLen, RLT)
-			if ok, w := p.GuardedSite(g2, pc); ok {
-				r.OK("R19.2", fmt.Sprintf("%s payout #%d index", fname(init_), i+1), "split index guarded", p.instrPos(pc))
-			} else {
-				r.Fail("R19.2", fmt.Sprintf("%s payout #%d index", fname(init_), i+1), "the per-epoch split list is indexed by TriggeredCount without TriggeredCount < len(splits)", p.instrPos(pc), w)
-			}
-		}
-		// R19.3: from the success edge of the payout, every path to the next iteration / return passes
-		// a store reducing the remaining balance and then SetGauge
-		r.Instance("R19.3")
-		construct := fmt.Sprintf("%s payout #%d bookkeeping", fname(init_), i+1)
-		var okSucc *ssa.BasicBlock
-		for _, b := range init_.Blocks {
-			ifi, ok := b.Instrs[len(b.Instrs)-1].(*ssa.If)
-			if !ok {
-				continue
-			}
-			e, neq, ok := nilCheck(ifi.Cond)
-			if !ok {
-				continue
-			}
-			for _, cc := range errorCallsOf(e, 0) {
-				if cc == pc {
-					if neq {
-						okSucc = b.Succs[1]
-					} else {
-						okSucc = b.Succs[0]
+					if c, ok := in.(ssa.CallInstruction); ok && p.callIs(c, "SetGauge") {
+						setG[b] = true
 					}
 				}
 			}
-		}
-		if okSucc == nil {
-			r.Fail("R19.3", construct, "the error of the payout is not checked", p.instrPos(pc), nil)
-			continue
-		}
-		paidFrom := func(v ssa.Value) bool {
-			for _, o := range p.DeepOrigins(v) {
-				if o.Kind == "call" && o.Call == pc {
-					return true
+			back := backEdges(init_)
+			// (a) reach a SetGauge without passing a reducing store?
+			seenNoReduce, _ := reach(init_, okSucc, back, reduce)
+			badReduce := false
+			for b := range setG {
+				if seenNoReduce[b] && !reduce[b] {
+					badReduce = true
 				}
 			}
-			return false
-		}
-		reduce := map[*ssa.BasicBlock]bool{}
-		setG := map[*ssa.BasicBlock]bool{}
-		for _, b := range init_.Blocks {
-			for _, in := range b.Instrs {
-				if st, ok := in.(*ssa.Store); ok {
-					base, path := addrBase(st.Addr)
-					if namedTypeName(base.Type()) != "Gauge" || len(path) == 0 {
-						continue
-					}
-					op, _, x, isAS := addSubOf(st.Val)
-					if !isAS || !paidFrom(x) {
-						continue
-					}
-					if (path[0] == "DepositAmount" && op == "Sub") || (path[0] == "DistributedAmount" && op == "Add" && !swapFee) {
-						reduce[b] = true
+			// (b) leave the iteration (back edge source or return) without SetGauge?
+			seenNoSet, _ := reach(init_, okSucc, back, setG)
+			badSet := false
+			for _, b := range init_.Blocks {
+				if !seenNoSet[b] {
+					continue
+				}
+				for j := range b.Succs {
+					if back[Edge{b, j}] {
+						badSet = true
 					}
 				}
-				if c, ok := in.(ssa.CallInstruction); ok && p.callIs(c, "SetGauge") {
-					setG[b] = true
-				}
-			}
-		}
-		back := backEdges(init_)
-		// (a) reach a SetGauge without passing a reducing store?
-		seenNoReduce, _ := reach(init_, okSucc, back, reduce)
-		badReduce := false
-		for b := range setG {
-			if seenNoReduce[b] && !reduce[b] {
-				badReduce = true
-			}
-		}
-		// (b) leave the iteration (back edge source or return) without SetGauge?
-		seenNoSet, _ := reach(init_, okSucc, back, setG)
-		badSet := false
-		for _, b := range init_.Blocks {
-			if !seenNoSet[b] {
-				continue
-			}
-			for j := range b.Succs {
-				if back[Edge{b, j}] {
+				if _, ok := b.Instrs[len(b.Instrs)-1].(*ssa.Return); ok {
 					badSet = true
 				}
 			}
-			if _, ok := b.Instrs[len(b.Instrs)-1].(*ssa.Return); ok {
-				badSet = true
+			switch {
+			case badSet:
+				r.Fail("R19.3", construct, "after a successful payout the loop can move on without storing the gauge: the paid amount is not recorded and is paid again at the next epoch", p.instrPos(pc), nil)
+			case badReduce || len(reduce) == 0:
+				r.Fail("R19.3", construct, "after a successful payout the gauge can be stored without its remaining balance having been reduced by what was paid (cumulative payouts can exceed the deposit)", p.instrPos(pc), nil)
+			default:
+				r.OK("R19.3", construct, "every path after the payout reduces the remaining balance and stores the gauge", p.instrPos(pc))
 			}
 		}
-		switch {
-		case badSet:
-			r.Fail("R19.3", construct, "after a successful payout the loop can move on without storing the gauge: the paid amount is not recorded and is paid again at the next epoch", p.instrPos(pc), nil)
-		case badReduce || len(reduce) == 0:
-			r.Fail("R19.3", construct, "after a successful payout the gauge can be stored without its remaining balance having been reduced by what was paid (cumulative payouts can exceed the deposit)", p.instrPos(pc), nil)
-		default:
-			r.OK("R19.3", construct, "every path after the payout reduces the remaining balance and stores the gauge", p.instrPos(pc))
-		}
-	}
 
-	// R19.5 the per-epoch split is empty only when the deposit is smaller than the number of epochs
-	r.Rule("R19.5", "SplitTotalAmountPerEpoch returns no allocation only when total < epochs", 1)
-	{
-		fn := p.MustFunc("x/rewards/keeper.SplitTotalAmountPerEpoch")
-		r.FuncsSeen[fname(fn)] = true
-		var total, epochs *ssa.Parameter
-		if len(fn.Params) == 2 {
-			total, epochs = fn.Params[0], fn.Params[1]
-		}
-		g := p.cmpGuard("total < epochs", func(v ssa.Value) bool { return v == total }, func(v ssa.Value) bool { return v == epochs }, RLT)
-		// returns of the empty (never appended) slice
-		n := 0
-		for _, rt := range returns(fn) {
-			if len(rt.Results) != 1 {
-				continue
-			}
-			empty := true
-			for _, alt := range phiAlternatives(rt.Results[0]) {
-				if c, ok := alt.(*ssa.Call); ok {
-					if bi, ok := c.Call.Value.(*ssa.Builtin); ok && bi.Name() == "append" {
-						empty = false
-					}
-				}
-			}
-			if !empty {
-				continue
-			}
-			n++
-			r.Instance("R19.5")
-			if ok, _, w := p.guardedTargets(g, fn, []*ssa.BasicBlock{rt.Block()}, 0); ok {
-				r.OK("R19.5", fname(fn)+" empty split", "only when total < epochs", p.instrPos(rt))
-			} else {
-				r.Fail("R19.5", fname(fn)+" empty split", "the split can be empty although the deposit is not smaller than the number of epochs: the allocations no longer sum to the deposit and the gauge never pays", p.instrPos(rt), w)
-			}
-		}
-		if n == 0 {
-			r.Instance("R19.5")
-			r.OK("R19.5", fname(fn)+" empty split", "no empty-split return", p.pos(fn.Pos()))
-		}
-	}
-
-	// R19.6 external reward programs pay from, and reduce, AvailableRewards
-	r.Rule("R19.6", "external reward programs: payouts derive from AvailableRewards (not TotalRewards) and AvailableRewards is reduced", 4)
-	{
-		rewardsMod := modConst(p, "x/rewards/types")
-		for _, name := range []string{"DistributeExtRewardLocker", "DistributeExtRewardVault", "DistributeExtRewardLend", "DistributeExtRewardStableVault"} {
-			fn := p.MustFunc("x/rewards/keeper.Keeper." + name)
+		// R19.5 the per-epoch split is empty only when the deposit is smaller than the number of epochs
+		r.Rule("R19.5", "SplitTotalAmountPerEpoch returns no allocation only when total < epochs", 1)
+		{
+			fn := p.MustFunc("x/rewards/keeper.SplitTotalAmountPerEpoch")
 			r.FuncsSeen[fname(fn)] = true
-			r.Instance("R19.6")
-			bad := ""
-			nPay := 0
-			for _, c := range calls(fn) {
-				be := bankEffect(c)
-				if be == nil || be.Op != "ModToAcc" || moduleName(be.From) != rewardsMod {
+			var total, epochs *ssa.Parameter
+			if len(fn.Params) == 2 {
+				total, epochs = fn.Params[0], fn.Params[1]
+			}
+			g := p.cmpGuard("total < epochs", func(v ssa.Value) bool { return v == total }, func(v ssa.Value) bool { return v == epochs }, RLT)
+			// returns of the empty (never appended) slice
+			n := 0
+			for _, rt := range returns(fn) {
+				if len(rt.Results) != 1 {
 					continue
 				}
-				nPay++
-				amts, _ := p.coinParts(be.Coins)
-				for _, a := range amts {
-					avail, total := false, false
-					// follow the amount through every call (oracle valuation helpers included)
-					seen := map[ssa.Value]bool{}
-					var rec func(v ssa.Value, d int)
-					rec = func(v ssa.Value, d int) {
-						if v == nil || seen[v] || d > 14 {
-							return
-						}
-						seen[v] = true
-						for _, o := range p.DeepOrigins(v) {
-							for i, f := range o.Path {
-								if f == "AvailableRewards" {
-									avail = true
-								}
-								if f == "TotalRewards" && i+1 < len(o.Path) && o.Path[i+1] == "Amount" {
-									total = true
-								}
-							}
-							if o.Kind == "call" {
-								for _, arg := range o.Call.Call.Args {
-									rec(arg, d+1)
-								}
-							}
-						}
-					}
-					rec(a, 0)
-					if !avail || total {
-						bad = fmt.Sprintf("payout at %s derives from AvailableRewards=%v TotalRewards.Amount=%v", p.instrPos(c), avail, total)
-					}
-				}
-			}
-			reduced := false
-			for _, b := range fn.Blocks {
-				for _, in := range b.Instrs {
-					if st, ok := in.(*ssa.Store); ok {
-						_, path := addrBase(st.Addr)
-						if len(path) > 0 && path[0] == "AvailableRewards" {
-							if op, _, _, ok := addSubOf(st.Val); ok && op == "Sub" {
-								reduced = true
-							}
+				empty := true
+				for _, alt := range phiAlternatives(rt.Results[0]) {
+					if c, ok := alt.(*ssa.Call); ok {
+						if bi, ok := c.Call.Value.(*ssa.Builtin); ok && bi.Name() == "append" {
+							empty = false
 						}
 					}
 				}
+				if !empty {
+					continue
+				}
+				n++
+				r.Instance("R19.5")
+				if ok, _, w := p.guardedTargets(g, fn, []*ssa.BasicBlock{rt.Block()}, 0); ok {
+					r.OK("R19.5", fname(fn)+" empty split", "only when total < epochs", p.instrPos(rt))
+				} else {
+					r.Fail("R19.5", fname(fn)+" empty split", "the split can be empty although the deposit is not smaller than the number of epochs: the allocations no longer sum to the deposit and the gauge never pays", p.instrPos(rt), w)
+				}
 			}
-			switch {
-			case nPay == 0:
-				r.Fail("R19.6", fname(fn), "no payout found", p.pos(fn.Pos()), nil)
-			case bad != "":
-				r.Fail("R19.6", fname(fn), "the daily payout of an external reward program is not computed from the remaining AvailableRewards (or mixes in TotalRewards): "+bad+"; the program can pay more than it was funded with", p.pos(fn.Pos()), nil)
-			case !reduced:
-				r.Fail("R19.6", fname(fn), "AvailableRewards is never reduced by what was paid", p.pos(fn.Pos()), nil)
-			default:
-				r.OK("R19.6", fname(fn), "payouts derive from AvailableRewards, which is reduced by the tracked amount", p.pos(fn.Pos()))
+			if n == 0 {
+				r.Instance("R19.5")
+				r.OK("R19.5", fname(fn)+" empty split", "no empty-split return", p.pos(fn.Pos()))
 			}
 		}
-	}
 
+		// R19.6 external reward programs pay from, and reduce, AvailableRewards
+		r.Rule("R19.6", "external reward programs: payouts derive from AvailableRewards (not TotalRewards) and AvailableRewards is reduced", 4)
+		{
+			rewardsMod := modConst(p, "x/rewards/types")
+			for _, name := range []string{"DistributeExtRewardLocker", "DistributeExtRewardVault", "DistributeExtRewardLend", "DistributeExtRewardStableVault"} {
+				fn := p.MustFunc("x/rewards/keeper.Keeper." + name)
+				r.FuncsSeen[fname(fn)] = true
+				r.Instance("R19.6")
+				bad := ""
+				nPay := 0
+				for _, c := range calls(fn) {
+					be := bankEffect(c)
+					if be == nil || be.Op != "ModToAcc" || moduleName(be.From) != rewardsMod {
+						continue
+					}
+					nPay++
+					amts, _ := p.coinParts(be.Coins)
+					for _, a := range amts {
+						avail, total := false, false
+						// follow the amount through every call (oracle valuation helpers included)
+						seen := map[ssa.Value]bool{}
+						var rec func(v ssa.Value, d int)
+						rec = func(v ssa.Value, d int) {
+							if v == nil || seen[v] || d > 14 {
+								return
+							}
+							seen[v] = true
+							for _, o := range p.DeepOrigins(v) {
+								for i, f := range o.Path {
+									if f == "AvailableRewards" {
+										avail = true
+									}
+									if f == "TotalRewards" && i+1 < len(o.Path) && o.Path[i+1] == "Amount" {
+										total = true
+									}
+								}
+								if o.Kind == "call" {
+									for _, arg := range o.Call.Call.Args {
+										rec(arg, d+1)
+									}
+								}
+							}
+						}
+						rec(a, 0)
+						if !avail || total {
+							bad = fmt.Sprintf("payout at %s derives from AvailableRewards=%v TotalRewards.Amount=%v", p.instrPos(c), avail, total)
+						}
+					}
+				}
+				reduced := false
+				for _, b := range fn.Blocks {
+					for _, in := range b.Instrs {
+						if st, ok := in.(*ssa.Store); ok {
+							_, path := addrBase(st.Addr)
+							if len(path) > 0 && path[0] == "AvailableRewards" {
+								if op, _, _, ok := addSubOf(st.Val); ok && op == "Sub" {
+									reduced = true
+								}
+							}
+						}
+					}
+				}
+				switch {
+				case nPay == 0:
+					r.Fail("R19.6", fname(fn), "no payout found", p.pos(fn.Pos()), nil)
+				case bad != "":
+					r.Fail("R19.6", fname(fn), "the daily payout of an external reward program is not computed from the remaining AvailableRewards (or mixes in TotalRewards): "+bad+"; the program can pay more than it was funded with", p.pos(fn.Pos()), nil)
+				case !reduced:
+					r.Fail("R19.6", fname(fn), "AvailableRewards is never reduced by what was paid", p.pos(fn.Pos()), nil)
+				default:
+					r.OK("R19.6", fname(fn), "payouts derive from AvailableRewards, which is reduced by the tracked amount", p.pos(fn.Pos()))
+				}
+			}
+		}
+
+	}
 	// R19.4 sibling agreement ----------------------------------------------------------
-	r.Rule("R19.4", "sibling farming valuations pick the oracle-priced reserve side by the same pair field", 2)
+	r.Rule("R19.4", "sibling farming valuations pick the oracle-priced reserve side by the same pair field", 1)
 	{
 		type hit struct {
 			fn    string
